@@ -48,8 +48,8 @@ namespace hs
 
     Handlers& handlers()
     {
-        static Handlers h;
-        return h;
+        static Handlers* h = new Handlers; // never destroyed: library statics report leaks at exit
+        return *h;
     }
 
     void install_handlers()
@@ -142,6 +142,7 @@ namespace hs
         step_              = -1;
         nontrivial_growth_ = nontrivial_release_ = false;
         moves_done_                              = 0;
+        next_owner_                              = 0;
         heap.reset(int(p.num("place", 0)), p.num("minalign", 0) != 0, false,
                    (std::uint64_t)p.num("hseed", 1));
         try
@@ -156,6 +157,10 @@ namespace hs
             }
             step_ = int(p.ops.size());
             shadow_.check_all(cprop("C01"), "end of run");
+            // the low-level allocators hand out upstream memory directly: a caller returns it before exit
+            for (int k = 0; k < 2; ++k)
+                if (objs_[k].o && !objs_[k].husk && objs_[k].o->caps.kind == K_LOWLEVEL)
+                    op_free_all(k, 1);
             // teardown in a drawn order
             auto end = p.num("end", 0);
             if (end & 1)
@@ -303,7 +308,7 @@ namespace hs
         c.no_blocks    = std::size_t(p.num("no_blocks" + sfx, p.num("no_blocks", 4)));
         c.vary         = unsigned(p.num("vary" + sfx, p.num("vary", 0)));
         c.mbs_n        = which ? 0 : std::size_t(p.num("mbs_n", 0));
-        c.owner        = OWNER_FIRST + which;
+        c.owner        = OWNER_FIRST + next_owner_++; // unique per construction
         return c;
     }
 
@@ -443,6 +448,8 @@ namespace hs
         auto& heap = SimHeap::get();
         auto& h    = handlers();
         int   idx  = (&S == &objs_[0]) ? 0 : (&S == &objs_[1]) ? 1 : -1;
+        if (!is_husk && idx >= 0 && S.o->caps.kind == K_LOWLEVEL)
+            op_free_all(idx, 1); // stateless: the caller returns what it still holds, the object is just a handle
         if (!is_husk && idx >= 0)
             drop_allocs_of(idx);
         long long expected = (is_husk || !S.o->caps.leak_tracked || !LEAK) ? 0 : S.leak_net;
@@ -665,7 +672,7 @@ namespace hs
             stats().hit("fault.upstream_failure_fired");
         if (calls)
             stats().hit("reach.upstream_request_in_history");
-        if (calls && S.successes)
+        if ((calls && S.successes) || (!c.grows && S.successes >= 3))
             nontrivial_growth_ = true;
 
         if (f.threw)
@@ -1157,7 +1164,13 @@ namespace hs
             return;
         auto& heap = SimHeap::get();
         int   ti = index_of(T), fi = index_of(F);
-        // the target's memory goes away: its allocations end here
+        // the target's memory goes away: its allocations end here (a stateless low-level allocator is only a
+        // handle: what it handed out stays valid and is returned through the surviving handle)
+        if (T.o->caps.kind == K_LOWLEVEL)
+        {
+            if (!T.husk)
+                op_free_all(ti, 0);
+        }
         drop_allocs_of(ti);
         int  old_owner = T.o->owner;
         bool t_husk    = T.husk;
